@@ -58,6 +58,19 @@ void AssembleAction::onFinal()
 // SerialAssembleAction
 //////////////////////////
 
+SerialAssembleAction::~SerialAssembleAction()
+{
+    cancelDispatchedChildFinish();
+}
+
+void SerialAssembleAction::cancelDispatchedChildFinish()
+{
+    if (child_finish_run_id_ != 0) {
+        loop_.cancel(child_finish_run_id_);
+        child_finish_run_id_ = 0;
+    }
+}
+
 bool SerialAssembleAction::startThisAction(Action *action)
 {
     if (action->start()) {
@@ -125,7 +138,10 @@ void SerialAssembleAction::onResume()
         curr_action_->resume();
 
     } else if (child_finish_func_) {
-        loop_.runNext(std::move(child_finish_func_));
+        //! 记下任务号，以便在 stop(), reset() 或析构时撤消，防止旧的结果作用到下一次运行
+        cancelDispatchedChildFinish();
+        child_finish_run_id_ = loop_.runNext(std::move(child_finish_func_));
+        child_finish_func_ = nullptr;
 
     } else {
         LogWarn("%d:%s[%s] can't resume", id(), type().c_str(), label().c_str());
@@ -136,6 +152,7 @@ void SerialAssembleAction::onStop()
 {
     stopCurrAction();
     child_finish_func_ = nullptr;
+    cancelDispatchedChildFinish();
 
     AssembleAction::onStop();
 }
@@ -144,6 +161,7 @@ void SerialAssembleAction::onReset()
 {
     curr_action_ = nullptr;
     child_finish_func_ = nullptr;
+    cancelDispatchedChildFinish();
 
     AssembleAction::onReset();
 }
